@@ -40,6 +40,18 @@ func genHistory(r *RNG, n int) []Op {
 	baseW, baseH := r.Pick(8, 16, 17, 31, 32, 33, 48, 49, 64, 80), r.Pick(8, 16, 17, 32, 48, 49, 50, 64, 65, 80)
 	for i := 0; i < n; i++ {
 		var op Op
+		if r.Pct(7) {
+			// two or three hand-crafted VP8 key frames of one size in a row: the first
+			// sets persistent header state (loop-filter deltas, segment data and map, skip
+			// flags), the following ones leave it to "whatever was there"
+			w, h := r.Pick(16, 17, 32, 33, 48), r.Pick(16, 24, 32, 48)
+			first := VP8Craft{LFDelta: r.PickS("set", "set", ""), Segment: r.PickS("set", "set", ""), W: w, H: h, NoDamage: r.Pct(80)}
+			ops = append(ops, craftVP8Op(r, first))
+			for k := r.Range(1, 2); k > 0; k-- {
+				ops = append(ops, craftVP8Op(r, VP8Craft{LFDelta: r.PickS("keep", "partial", "keep", ""), Segment: r.PickS("keep", "data", "map", "off", ""), W: w, H: h, NoDamage: true}))
+			}
+			continue
+		}
 		switch r.Intn(10) {
 		case 0:
 			if r.Bool() {
@@ -274,6 +286,10 @@ func (propC11) Describe() PropDoc {
 		Reference: []string{"the same call as the first call of a fresh world (pools empty), and on a sample in a fresh OS process with the un-rewritten library"},
 		MustReach: []string{"pool_hit", "histories_with_pool_reuse"},
 	}
+}
+
+func craftVP8Op(r *RNG, c VP8Craft) Op {
+	return Op{Kind: "hostile", Hostile: &C05Params{Base: "craftvp8", Seed: r.Next(), VP8: &c}}
 }
 
 // genHostileOp: every decoding entry point on a corrupted or truncated stored file
